@@ -244,6 +244,15 @@ def build_rs_min(features=()):
     return _built[key]
 
 
+def build_c_asan():
+    """harness/c built with clang -fsanitize=address,undefined (the harness turns sanitizer reports into a ` SAN` flag)"""
+    if "c_asan" in _built:
+        return _built["c_asan"]
+    rc, out = run(["make", "-C", C_DIR, "-j16", "asan"], timeout=3600)
+    _built["c_asan"] = (rc == 0, os.path.join(C_DIR, "build", "cdriver_asan"), out)
+    return _built["c_asan"]
+
+
 def build_c():
     if "c" in _built:
         return _built["c"]
